@@ -20,7 +20,11 @@ ONext == UNCHANGED i
 C == Cases[i]
 Has(s) == s \in DOMAIN C.runs
 R(s) == C.runs[s]
-P(s) == Plan(C.c, C.cva, s, R(s).res0)
+\* the fields of Plan(C.c, C.cva, s, R(s).res0), evaluated one by one (SolversDef!Plan is their record)
+PR(s) == Resolve(C.c, C.cva, s, R(s).res0)
+PCalls(s) == Calls(C.c, PR(s))
+PAllowed(s) == Allowed(C.c, s)
+PComparable(s) == Comparable(C.c, C.cva, s, R(s).res0)
 RefOk == Has(RefSolver) /\ R(RefSolver).out = "ok"
 
 AbsTol == 30
@@ -37,7 +41,7 @@ Same(x, y) == /\ Q(x.vm, y.vm) /\ AngleSeq(x.va, y.va)
 -----------------------------------------------------------------------------
 (* PROPERTY, clause 1: a solver configuration that returns agrees with the reference (one invariant per             *)
 (* configuration so that TLC names the configuration that disagrees)                                               *)
-SameFor(s) == (Has(s) /\ RefOk /\ R(s).out = "ok" /\ P(s).comparable) => Same(R(s), R(RefSolver))
+SameFor(s) == (Has(s) /\ RefOk /\ R(s).out = "ok" /\ PComparable(s)) => Same(R(s), R(RefSolver))
 C06_Same_nr_pp      == SameFor("nr_pp")
 C06_Same_nr_ls2g    == SameFor("nr_ls2g")
 C06_Same_nr_nonumba == SameFor("nr_nonumba")
@@ -56,22 +60,22 @@ ASSUME AltSolvers = {"nr_pp", "nr_ls2g", "nr_nonumba", "nr_dc", "nr_flat", "nr_r
 
 (* PROPERTY, clause 2: on radial / weakly meshed classes with one slack per island that Newton-Raphson solves, the   *)
 (* sweep does not die with an internal error; clause 3: where its convergence is not in question it solves           *)
-C06_BfswNoInternalError == (Has("bfsw") /\ RefOk /\ "error" \notin P("bfsw").allowed) => R("bfsw").out # "error"
-C06_BfswMustSolve       == (Has("bfsw") /\ RefOk /\ P("bfsw").allowed = {"ok"}) => R("bfsw").out = "ok"
+C06_BfswNoInternalError == (Has("bfsw") /\ RefOk /\ "error" \notin PAllowed("bfsw")) => R("bfsw").out # "error"
+C06_BfswMustSolve       == (Has("bfsw") /\ RefOk /\ PAllowed("bfsw") = {"ok"}) => R("bfsw").out = "ok"
 
 -----------------------------------------------------------------------------
 (* CONFORMANCE of the model's decision functions with the code (a failure is a divergence of the specification,     *)
 (* reported in the evidence, not a violation of C06)                                                                *)
 C06_ConfOptions == \A s \in DOMAIN C.runs : R(s).seen =>
-  LET o == R(s).opts  r == P(s).r IN
+  LET o == R(s).opts  r == PR(s) IN
   /\ o.alg = r.alg /\ o.init_vm = r.init_vm /\ o.init_va = r.init_va /\ o.maxit = r.maxit
   /\ o.numba = r.numba /\ o.ls2g = (r.ls2g = "on")
 C06_ConfUnsupported == \A s \in DOMAIN C.runs :
-  (P(s).r.ls2g = "unsupported") <=> (R(s).out = "error" /\ R(s).etype = "NotImplementedError")
+  (PR(s).ls2g = "unsupported") <=> (R(s).out = "error" /\ R(s).etype = "NotImplementedError")
 IsPrefix(s, t) == Len(s) <= Len(t) /\ \A k \in 1..Len(s) : s[k] = t[k]
 C06_ConfCalls == \A s \in DOMAIN C.runs : R(s).traced =>
-  /\ IsPrefix(R(s).calls, P(s).calls)
-  /\ R(s).out = "ok" => R(s).calls = P(s).calls
+  /\ IsPrefix(R(s).calls, PCalls(s))
+  /\ R(s).out = "ok" => R(s).calls = PCalls(s)
 \* the index model explains the internal errors of the sweep, and only those
 C06_ConfBfswCrash == (Has("bfsw") /\ RefOk /\ BfswPred(C.c) # "unspecified") =>
   /\ (BfswPred(C.c) = "index_error") <=> (R("bfsw").out = "error" /\ R("bfsw").etype = "ValueError")
